@@ -462,4 +462,113 @@ theorem psi_shape (N : Nat) (s s' : St) (hi : Inv s) (hN : s.na ≤ N) (hs : Sha
     simp only [psi, h4, h1, sumTo_succ, upd_same, hL, l1, hP, e2, e1, Nat.mul_add, Nat.mul_one]
     omega
 
+/-! ## counting real retries along a run -/
+
+/-- a CAS retry whose expected value is stale: the head has moved since the last observation -/
+def isReal (s : St) : Ev → Bool
+  | .cas _ a false cls _ _ =>
+    cls != 2 && (match s.acc a, s.head (s.grp a) with
+                 | .loaded _ _ h, some q => h != q.length
+                 | _, _ => false)
+  | _ => false
+
+theorem isReal_isRetry (s : St) (e : Ev) (h : isReal s e = true) : isRetry e = true := by
+  cases e with
+  | cas t a ok cls ack died =>
+    cases ok with
+    | true => simp [isReal] at h
+    | false => simp only [isReal, Bool.and_eq_true] at h; simpa [isRetry] using h.1
+  | _ => simp [isReal] at h
+
+/-- number of real retries in a run from `s` -/
+def reals : St → List Ev → Nat
+  | _, [] => 0
+  | s, e :: es => (if isReal s e then 1 else 0) +
+      (match step s e with
+       | some s' => reals s' es
+       | none => 0)
+
+def reqCount : List Ev → Nat
+  | [] => 0
+  | e :: es => reqN e + reqCount es
+
+theorem reals_le_retries (log : List Ev) : ∀ s, reals s log ≤ retries log := by
+  induction log with
+  | nil => intro s; simp [reals, retries]
+  | cons e es ih =>
+    intro s
+    simp only [reals, retries]
+    have h1 : (if isReal s e = true then 1 else 0) ≤ (if isRetry e = true then 1 else 0) := by
+      by_cases hr : isReal s e = true
+      · simp [hr, isReal_isRetry s e hr]
+      · simp [hr]
+    cases hs : step s e with
+    | none => simp; omega
+    | some s1 => have := ih s1; simp only []; omega
+
+theorem psi_step (N : Nat) (s s' : St) (e : Ev) (hi : Inv s) (hl : LoadedLe s) (hN : s.na ≤ N)
+    (h : step s e = some s') :
+    psi N s' + (if isReal s e then 1 else 0) ≤ psi N s + N * reqN e := by
+  obtain ⟨h1, h2⟩ := psi_shape N s s' hi hN (step_shape s s' e hi h)
+  have hna := step_na s s' e h
+  have e1 : s'.na - s.na = reqN e := by omega
+  rw [e1] at h1
+  by_cases hr : isReal s e = true
+  · obtain ⟨t, a, cls, ack, died, hE, hc⟩ := isRetry_shape e (isReal_isRetry s e hr)
+    subst hE
+    obtain ⟨det, h0, q, hx, hh, hs⟩ := retry_shape s s' t a cls ack died hc h
+    have hne : h0 ≠ q.length := by
+      simp only [isReal, hx, hh, Bool.and_eq_true] at hr
+      simpa using hr.2
+    have hle := hl a t det h0 q hx hh
+    have := h2 a t det h0 q hx hh (by omega) (by rw [hs]) (by rw [hs]) (by rw [hs]) (by rw [hs])
+    simp only [hr, if_true]
+    omega
+  · simp only [hr]; simpa using h1
+
+theorem runLog_na_le (log : List Ev) : ∀ (s s' : St), runLog step s log = some s' →
+    s'.na = s.na + reqCount log := by
+  induction log with
+  | nil => intro s s' h; simp at h; subst h; simp [reqCount]
+  | cons e es ih =>
+    intro s s' h
+    simp only [runLog] at h
+    cases hs : step s e with
+    | none => simp [hs] at h
+    | some s1 =>
+      simp only [hs] at h
+      have := ih s1 s' h
+      have := step_na s s1 e hs
+      simp only [reqCount]; omega
+
+theorem runLog_psi (N : Nat) (log : List Ev) : ∀ (s s' : St), Inv s → LoadedLe s → runLog step s log = some s' →
+    s'.na ≤ N → psi N s' + reals s log ≤ psi N s + N * reqCount log := by
+  induction log with
+  | nil => intro s s' _ _ h _; simp at h; subst h; simp [reals, reqCount]
+  | cons e es ih =>
+    intro s s' hi hl h hN
+    simp only [runLog] at h
+    cases hs : step s e with
+    | none => simp [hs] at h
+    | some s1 =>
+      simp only [hs] at h
+      have hle := runLog_na_le es s1 s' h
+      have hna := step_na s s1 e hs
+      have h1 := psi_step N s s1 e hi hl (by omega) hs
+      have h2 := ih s1 s' (step_inv s s1 e hi hs) (loadedLe_shape s s1 hi hl (step_shape s s1 e hi hs)) h hN
+      simp only [reals, hs, reqCount, Nat.mul_add]
+      omega
+
+theorem psi_init (N : Nat) : psi N init = 0 := by simp [psi, init]
+
+/-- real retries in an accepted log ≤ (number of requests)² -/
+theorem reals_bound (log : List Ev) (s : St) (h : runLog step init log = some s) :
+    reals init log ≤ s.na * s.na := by
+  have h1 := runLog_psi s.na log init s inv_init loadedLe_init h (Nat.le_refl _)
+  have h2 := runLog_na_le log init s h
+  rw [psi_init] at h1
+  have : reqCount log = s.na := by simp [init] at h2; omega
+  rw [this] at h1
+  omega
+
 end PikaVerif.Rw
